@@ -34,16 +34,13 @@ theorem hyg_rulesN (w : World) (hr : w.rules = rulesN)
     simp at hf
 
 theorem clean_wN : Clean wN := by
-  refine ⟨hyg_rulesN wN rfl ?_, ?_, ?_, ?_⟩
+  refine ⟨hyg_rulesN wN rfl ?_, ?_, ?_⟩
   · intro c sc h
     simp only [wN, runOps, histN, applyOp, initWorld, setFile, newNode] at h
     repeat' split at h
     all_goals first | (cases h; exact ⟨rfl, rfl⟩) | cases h
   · simp [wN, runOps, histN, applyOp, initWorld, setFile, newNode, alwaysId]
   · simp [wN, runOps, histN, applyOp, initWorld, setFile, newNode]
-  · intro z hz
-    simp only [wN, runOps, histN, applyOp, initWorld, setFile, newNode] at hz
-    split at hz <;> cases hz
 
 /-- The theorem applies ... -/
 example : RanNodupFrom {} 0 wN [3, 2, 1] false :=
@@ -57,7 +54,7 @@ example : ranList (runCmd {} 0 (.ifchange [3, 2, 1] false) { wN with trace := []
 
 /-- It also applies with the two admissible defect switches on. -/
 example : RanNodupFrom { failedTargetAbortsRun := true, oobRecordsDepsOnCaller := true } 7 wN [2, 3] true :=
-  ran_nodup_of_wf _ rfl 7 wN [2, 3] true (wf_reachable {} 0 rulesN histN) clean_wN
+  ran_nodup_of_wf _ rfl 7 wN [2, 3] true (wf_reachable {} 0 rulesN histN) (ovOK_reachable {} 0 rulesN histN) clean_wN
 
 
 /-- A world with history: everything was built once, then the source 4 was edited. -/
@@ -69,7 +66,7 @@ example : WF wN2 := wf_reachable {} 0 rulesN histN2
 
 set_option maxHeartbeats 4000000 in
 theorem clean_wN2 : Clean wN2 := by
-  refine ⟨hyg_rulesN wN2 ?_ ?_, ?_, ?_, ?_⟩
+  refine ⟨hyg_rulesN wN2 ?_ ?_, ?_, ?_⟩
   · unfold wN2 histN2 histN rulesN
     eval_run
   · intro c sc h
@@ -83,15 +80,6 @@ theorem clean_wN2 : Clean wN2 := by
     eval_run
   · unfold wN2 histN2 histN rulesN
     eval_run
-  · intro z
-    unfold wN2 histN2 histN rulesN
-    eval_run
-    intro h
-    exfalso
-    have hz : z = 3 ∨ z = 1 ∨ z = 11 ∨ z = 2 ∨ z = 12 ∨ z = 13 ∨ z = 0 ∨
-        (z ≠ 3 ∧ z ≠ 1 ∧ z ≠ 11 ∧ z ≠ 2 ∧ z ≠ 12 ∧ z ≠ 13 ∧ z ≠ 0) := by omega
-    rcases hz with rfl | rfl | rfl | rfl | rfl | rfl | rfl | ⟨h1, h2, h3, h4, h5, h6, h7⟩
-    all_goals simp_all
 
 example : RanNodupFrom {} 0 wN2 [2, 3, 1] false :=
   ran_nodup_reachable {} {} rfl 0 0 rulesN histN2 [2, 3, 1] false clean_wN2
@@ -120,7 +108,7 @@ theorem wO_out_of_step : (wO.recs 1).isOverride = true ∧ (wO.recs 1).stamp ≠
 set_option maxHeartbeats 4000000 in
 /-- ... and the world is clean all the same (before the repair of `start_self` it had to be excluded). -/
 theorem clean_wO : Clean wO := by
-  refine ⟨hyg_rulesN wO ?_ ?_, ?_, ?_, ?_⟩
+  refine ⟨hyg_rulesN wO ?_ ?_, ?_, ?_⟩
   · unfold wO histO rulesN
     eval_run
   · intro c sc h
@@ -134,13 +122,6 @@ theorem clean_wO : Clean wO := by
     eval_run
   · unfold wO histO rulesN
     eval_run
-  · intro z
-    unfold wO histO rulesN
-    eval_run
-    intro h _
-    have hz : z = 1 ∨ z = 11 ∨ z = 0 ∨ (z ≠ 1 ∧ z ≠ 11 ∧ z ≠ 0) := by omega
-    rcases hz with rfl | rfl | rfl | ⟨h1, h2, h3⟩
-    all_goals simp_all
 
 example : RanNodupFrom {} 0 wO [2, 3] false :=
   ran_nodup_reachable {} {} rfl 0 0 rulesN histO [2, 3] false clean_wO
@@ -152,6 +133,47 @@ it was p, q, p. -/
 theorem override_edited_again_once :
     ranList (runCmd {} 0 (.ifchange [2, 3] false) { wO with trace := [] }).2 = [3, 2] := by
   unfold wO histO rulesN
+  eval_run
+
+/-! ### An overridden file that vanished and was written again (the former `Cex.override_unfailed_twice`) -/
+
+/-- 1 = `t` (11), 2 = `p` (12: `redo-ifchange t`, later edited to declare nothing), 3 = `q` (13: `redo-ifchange t`),
+4 = `r` (14: `redo-ifchange q`). -/
+def rulesV : Nat → List Nat := fun t => if t = 1 ∨ t = 2 ∨ t = 3 ∨ t = 4 then [10 + t] else []
+
+/-- `t` is built, overwritten by hand and accepted as overridden, `p` and `q` are brought up to date, then `t` is
+removed; the check of `p` (whose .do no longer asks for `t`) turns the record of `t` into a source with failure
+mark 0 — and, since the repair, without the override flag; then `t` is written by hand again. -/
+def histV : List UserOp :=
+  [ .setProg (srcContent 1) { },
+    .setProg (srcContent 2) { ifchange := [[1]] },
+    .setProg (srcContent 3) { ifchange := [[1]] },
+    .setProg (srcContent 4) { ifchange := [[3]] },
+    .setProg (srcContent 5) { },
+    .write 11 1, .write 12 2, .write 13 3, .write 14 4,
+    .cmd (.ifchange [1] false), .cmd (.ifchange [2] false),
+    .write 1 7, .cmd (.ifchange [1] false), .cmd (.ifchange [2] false),
+    .remove 1, .write 12 5, .cmd (.ifchange [2] false),
+    .write 1 9 ]
+
+def wV : World := runOps {} 0 histV (initWorld rulesV)
+
+set_option maxRecDepth 8000 in
+set_option maxHeartbeats 4000000 in
+/-- The record of `t`: a plain source with failure mark 0 (before the repair: `isOverride = true`, and
+`start_self` never touched it again). -/
+theorem wV_forgotten : (wV.recs 1).isOverride = false ∧ (wV.recs 1).isGenerated = false ∧
+    (wV.recs 1).failed = some 0 := by
+  unfold wV histV rulesV
+  eval_run
+
+set_option maxRecDepth 8000 in
+set_option maxHeartbeats 4000000 in
+/-- `q` is rebuilt once (its source `t` changed), `r` once; the second request of `q` finds `t` repaired by
+`start_self`.  Order of execution: q, r — before the repair it was q, r, q. -/
+theorem vanished_override_recreated_once :
+    ranList (runCmd {} 0 (.ifchange [3, 4] false) { wV with trace := [] }).2 = [4, 3] := by
+  unfold wV histV rulesV
   eval_run
 
 end Ex
